@@ -59,6 +59,112 @@ CLAIMED['C06'] = dict(
               'correspondence of the real scheduler objects (cases.v/vm_compute)',
     ref='DESIGN.md section 7 C06')
 
+CLAIMED['C01'] = dict(
+    engine='E-cell',
+    text='Rocq theorems for all histories of cell events and cycles, any number of servers/instances, any dimension: '
+         'C01_invariant (every state reachable from the empty cell by well-formed events satisfies the accounting '
+         'invariant), C01_cycle (one cycle from ANY state satisfying it, for any identity choices), C01_accounting '
+         '(per server: free + summed demand = capacity componentwise and free >= 0, hence no dimension '
+         'oversubscribed), C01_views (a server lists exactly the instances that name it, without repetition; an '
+         'instance is listed by at most one server). Proof: Sched/Steps.v reduces a whole cycle (pre-phases, queue, '
+         'placement loop with eviction, restore, renewal) to eight primitive transitions; Sched/InvAcct.v proves the '
+         'invariant for each primitive and each event. Partial: unit spellings (1G = 1024M, 100% = 100) are covered '
+         'by C19\'s parser model and the correspondence only.',
+    note=SCHED_NOTE + ' Hypotheses of C01_invariant (wf_ops): a new server has a fresh name, non-negative capacity of '
+         'the cell\'s dimension and is not named by a stale instance; a new instance is unplaced with a non-negative '
+         'demand of that dimension.',
+    technique='Rocq proof (inductive invariant over primitive transitions of the cycle; induction over histories) + '
+              'per-operation digest correspondence of the real scheduler objects (cases.v/vm_compute)',
+    ref='DESIGN.md section 7 C01')
+
+NODE = {}
+CLAIMED['C12'] = dict(
+    engine='E-node',
+    text='Rocq theorems C12_names/C12_present/C12_content/C12_kept (a completed synchronisation mirrors the placement '
+         'list; written files = manifest + task + placement data), C12_atomic (every crash point of write_safe\'s '
+         'syscall list) and C12_sync_atomic (every outcome of the whole synchronisation: visible entries are old, '
+         'removed-unplaced, or complete new; temp names hidden from glob * and from the manager), for all prior '
+         'cache contents, placement lists, ZooKeeper states, iteration orders and fault points; source constants and '
+         'the write_safe call order regenerated from the AST each run (C12_source_constants); control flow tied by '
+         'differential execution of the real code with fault injection (exception and process kill).',
+    note='Atomicity of rename(2) and absence of torn reads are the definition of the file-system model; no durability '
+         'claim (fsync=False); YAML as a sorted token list; kazoo fake; placed names non-dot, manifests are mappings, '
+         'single writer.',
+    technique='Rocq proof over executable model + AST-regenerated constants + differential correspondence with '
+              'syscall-level fault injection',
+    ref='DESIGN.md section 7 C12')
+CLAIMED['C13'] = dict(
+    engine='E-node',
+    text='Rocq: for all event sequences a container can only be linked as running/<its instance>, cleanup/<its '
+         'instance>, cleanup/<its own name> (C13_one_link_partial); handler theorems for every state (deleted event '
+         'hands over, other handlers keep running links, created configures the current generation); for an instance '
+         'with a single (or no) container directory a resynchronisation keeps the unchanged running container, hands '
+         'over the uncached one, never starts a flagged one and leaves the instance running exactly when it is '
+         'configurable. The full statement is refuted for the unchanged code by five machine-checked witnesses '
+         '(naming mismatch; late created event; stale deleted event; resync with two generations; manifest replaced '
+         'while the manager is down), each reproduced on the real code and listed in known_findings.json.',
+    note='Partial: the full-strength theorems do not hold for the code as it is; the oracle reports the violations by '
+         'signature. Links as finite maps; unique names as (instance, file id) (C15); handler calls atomic; inotify '
+         'simulated as a FIFO; configure/supervisor/runtime stubbed; supervisor reactions and delivery points are inputs.',
+    technique='Rocq proof (invariant by induction over op sequences + per-instance frame lemma) + refutation '
+              'witnesses by vm_compute + differential correspondence after every op',
+    ref='DESIGN.md section 7 C13')
+CLAIMED['C14'] = dict(
+    engine='E-own',
+    text='Rocq theorems over all operation sequences of an executable model of VipMgr/RuleMgr/EndpointsMgr/'
+         'NetworkResourceService (induction over the op list; 12 theorems, closed under the global context): '
+         'C14_exclusive, C14_no_takeover, C14_in_network, C14_hosts_only, C14_alloc_returns, C14_owner_only_release, '
+         'C14_entry_survives, C14_nonowner_release_noop, C14_gc_exact, C14_sync_frees_stale, C14_reuse, '
+         'C14_service_consistent; tied to the source on every run by differential execution of the real classes on '
+         'real temporary directories after every operation.',
+    note='exclusivity under true concurrency rests on symlink(2) EEXIST (model definition); service-level consistency '
+         'is claimed for the schedules services/_base_service.py produces (guarded); netdev/iptables are recording '
+         'fakes; the tie is sampled (240 / 10 000 op sequences), not a translation.',
+    technique='Rocq proof (induction over op sequences) + differential correspondence (cases.v + vm_compute) + '
+              'property oracle on directory listings',
+    ref='DESIGN.md section 7 C14')
+CLAIMED['C16'] = dict(
+    engine='E-own',
+    text='Rocq theorems for all manifests and all interleavings about registration programs extracted from the Python '
+         'AST of _unshare_network/_cleanup_network on every run: C16_symmetric (finish(start h) = h exactly, h fresh), '
+         'C16_idempotent, C16_others_untouched / C16_start_others_untouched, C16_interleaving, '
+         'C16_port_ranges_disjoint, under the computational premise C16_templates_match discharged by vm_compute on '
+         'the generated table; interpreter tied by differential execution of the real functions on real rule/endpoint '
+         'directories.',
+    note='DNS assumed stable between start and finish; ip-sets/resolver/newnet/network client are fakes; statements the '
+         'translator classifies as irrelevant (plugin, newnet, conntrack) are trusted; ~7% of generated cases skipped '
+         'as order-ambiguous (passthrough set iteration).',
+    technique='Rocq proof + AST-extracted registration programs (premise templates_match by vm_compute) + '
+              'differential correspondence + property oracle',
+    ref='DESIGN.md section 7 C16')
+CLAIMED['C17'] = dict(
+    engine='E-zk',
+    text='Rocq theorems by inductive invariant over all interleavings of an executable small-step model (N clients, '
+         'requests at arbitrary points, session expiry and restart, arbitrary possibly-stale initial state): C17_safe '
+         '(every set/delete finds the node owned by the caller\'s own session; creates make own-session ephemeral '
+         'nodes), C17_delete_own_only (every call of a delete request is on a path registered for that container), '
+         'C17_newer_kept (a path re-registered by a newer container is not visited by the old container\'s clean-up); '
+         'tied to the code by running the real PresenceResourceService as concurrent clients against a shared '
+         'in-memory ZooKeeper with seed-chosen schedules.',
+    note='ZooKeeper session semantics and process exit on session loss are assumptions; no session re-establishment '
+         'inside a request; no external deleter; EndpointPresence.unregister_*/kill_node (hostname ownership) and '
+         '_unschedule are not covered.',
+    technique='Rocq proof (inductive invariant over a small-step interleaving model) + schedule-controlled '
+              'differential correspondence (baton-passing threads yielding at every ZooKeeper call) + ownership oracle',
+    ref='DESIGN.md section 7 C17')
+CLAIMED['C18'] = dict(
+    engine='E-zk',
+    text='Rocq theorems over an executable model of the archiver as ordered ZooKeeper write lists, for all shard '
+         'populations and every crash cut: C18_lossless, C18_retrievable, C18_selection, C18_partial_batch, '
+         'C18_lossless_finished, C18_selection_finished, C18_prune, C18_prune_complete, C18_download, C18_server, '
+         'C18_server_terminates, C18_payload_not_archived; the model is tied to the code by differential execution of '
+         'the real cleanup functions with a fault injected at every write and snapshots read back with sqlite3.',
+    note='sqlite/zlib as an unordered list of rows; GLOB as first-field equality; ZooKeeper sequence/atomic-write '
+         'semantics; batch_size >= 1; single archiver; "event" means the node name (payloads are not archived).',
+    technique='Rocq proof (prefix-closed covered predicate over write lists) + per-cut differential correspondence '
+              'against an in-memory kazoo fake with sqlite read-back + oracle',
+    ref='DESIGN.md section 7 C18')
+
 NOT_YET = {}
 
 
@@ -99,6 +205,16 @@ def main():
             {'name': 'E-mon', 'path': 'harness/props/c20.py', 'serves_properties': ['C20'],
              'kind_free_text': 'differential: real sproc.appmonitor._run_sync with fake ZooKeeper, clock and REST '
                                'API vs the Gallina model evaluated by vm_compute'},
+            {'name': 'E-node', 'path': 'harness/props/c12.py', 'serves_properties': ['C12', 'C13'],
+             'kind_free_text': 'differential: real EventMgr/fs.write_safe/AppCfgMgr/monitor/cleanup on temp trees with '
+                               'fault injection vs Node/Cache.v, Node/AppCfg.v'},
+            {'name': 'E-own', 'path': 'harness/props/c14.py', 'serves_properties': ['C14', 'C16'],
+             'kind_free_text': 'differential: real VipMgr/RuleMgr/EndpointsMgr/NetworkResourceService and '
+                               '_unshare_network/_cleanup_network on temp dirs vs Node/Owners.v, Node/NetReg.v'},
+            {'name': 'E-zk', 'path': 'harness/props/c17.py', 'serves_properties': ['C17', 'C18'],
+             'kind_free_text': 'differential: real PresenceResourceService (baton-passing threads) and trace '
+                               'cleanup functions (cut at every write) on an in-memory ZooKeeper vs Node/Presence.v, '
+                               'Trace/Archive.v'},
             {'name': 'E-cell', 'path': 'harness/ecell.py', 'serves_properties': ['C01', 'C02', 'C03', 'C04', 'C05',
                                                                                  'C06', 'C07', 'C08'],
              'kind_free_text': 'differential: real treadmill.scheduler Cell/Bucket/Server/Allocation/Application '
